@@ -159,6 +159,7 @@ class Engine:
     """Generates the obligations of one function."""
 
     def __init__(self, qualname: str, contract: S.Contract, contracts: dict = None, fs: FnSource = None):
+        self.field_alias = {}
         self.fs: FnSource = fs if fs is not None else get_function(qualname)
         self.c = contract
         self.contracts = contracts if contracts is not None else S.CONTRACTS
@@ -493,6 +494,10 @@ class Engine:
         a = self.ev(e.body, s1, False, ctx)
         s2 = st.copy(zand(st.guard, z3.Not(c)))
         b = self.ev(e.orelse, s2, False, ctx)
+        if (a is None) != (b is None):      # `v if c else None`: an optional that is present exactly under c
+            other = b if a is None else a
+            pres = other.present if isinstance(other, SOpt) else z3.BoolVal(True)
+            return SOpt(z3.simplify(zand(z3.Not(c) if a is None else c, pres)))
         return zite(c, a, b)
 
     def ev_Tuple(self, e, st, spec, ctx):
@@ -500,6 +505,9 @@ class Engine:
 
     def ev_Attribute(self, e, st, spec, ctx):
         txt = unparse(e)
+        al = self.field_alias.get(txt)
+        if al is not None and isinstance(st.vars.get(al), SArr):
+            return st.vars[al]      # `al = self.f` (bound once): al and the field are the same array object
         if txt in st.vars:
             return st.vars[txt]
         if txt in self.c.attrs:
@@ -670,6 +678,12 @@ class Engine:
             raise OutOfSubset(f"call to {name}")
         if isinstance(f, ast.Attribute):
             recv = f.value
+            if isinstance(recv, ast.Name) and recv.id == "self" and not spec and "." in self.fs.qualname.partition(":")[2]:
+                cls = self.fs.qualname.partition("#")[0].partition(":")[2].rpartition(".")[0]
+                mname = f.attr if not f.attr.startswith("__") or f.attr.endswith("__") else f.attr
+                cc = self.contracts.get(f"{self.module}:{cls}.{mname}")
+                if cc is not None:
+                    return self.call_method_contract(f"{cls}.{mname}", e, st, ctx, cc)
             if f.attr == "__new__" and isinstance(recv, ast.Call) and getattr(recv.func, "id", "") == "super" \
                     and len(e.args) == 3 and not spec:
                 # ndarray subclass construction: super().__new__(cls, shape, dtype) allocates an uninitialised array
@@ -1012,6 +1026,57 @@ class Engine:
         self.dts = saved_dts
         return res
 
+    def call_method_contract(self, name, e, st, ctx, cc: S.Contract):
+        """self.m(args) checked against the contract of m (never its body): the callee's fields are the caller's
+        object state, its ghosts are the caller's ghosts of the same name (or the `calls` map), what it may assign
+        is havocked (and must be inside the caller's own frame), its post-condition is assumed."""
+        pnames = list(cc.params)
+        if len(e.args) != len(pnames) or e.keywords:
+            raise OutOfSubset(f"arity of {name}")
+        env = dict(zip(pnames, [self.ev(a, st, False, ctx) for a in e.args]))
+        gmap = self.c.calls.get(name, {})
+        for g in cc.ghosts:
+            if g in gmap:
+                env[g] = self.ev(ast.parse(gmap[g], mode="eval").body, st, True, ctx)
+            elif g in st.vars:
+                env[g] = st.vars[g]
+            else:
+                raise ContractError(f"{self.fs.qualname}: no instantiation for ghost {g} of {name}")
+        for fld in cc.fields:
+            if fld not in st.vars:
+                raise ContractError(f"{self.fs.qualname}: field {fld} of callee {name} is not part of the caller's state")
+            env[fld] = st.vars[fld]
+        if cc.assigns is None:
+            raise OutOfSubset(f"callee {name} has no frame")
+        lab = f"{name}@{self.stmt_label()}"
+        saved_c = self.c
+        try:
+            self.c = cc                # the callee's attrs map speaks about the callee's view of the object
+            cenv = State(env, st.guard)
+            for cl in cc.requires:
+                g = to_bool(self.ev(cl.ast, cenv, True, {}))
+                self.emit("pre@call", f"{lab}:{cl.label}", g, st.guard, cl.props | frozenset(saved_c.props.split()))
+            if cc.raises_iff is not None:
+                g = z3.Not(to_bool(self.ev(ast.parse(cc.raises_iff, mode="eval").body, cenv, True, {})))
+                self.emit("pre@call", f"{lab}:does-not-raise", g, st.guard, frozenset(saved_c.props.split()))
+            post_env = dict(env)
+            for fld in cc.assigns:
+                if saved_c.assigns is not None and fld not in saved_c.assigns:
+                    self.emit("frame", f"{fld}@{lab}", z3.BoolVal(False), st.guard, saved_c.props)
+                t = cc.fields.get(fld) or saved_c.fields.get(fld)
+                if t is None:
+                    raise ContractError(f"{name}: assigned field {fld} has no declared type")
+                nv = self.mk_param(f"{fld.replace('.', '_')}!{next(_fresh)}", t)
+                post_env[fld] = nv
+                st.vars[fld] = nv
+            res = self.mk_param(f"{name}_res!{next(_fresh)}", cc.returns) if cc.returns is not None else None
+            penv = State(post_env, st.guard)
+            for cl in cc.ensures:
+                self.fact(to_bool(self.ev(cl.ast, penv, True, {"old": env, "result": res})), st.guard)
+        finally:
+            self.c = saved_c
+        return res
+
     # ------------------------------------------------------------------ statements
     def flush_i64(self, st, s):
         if self._pending_i64:
@@ -1046,6 +1111,25 @@ class Engine:
             normals = nxt
         out["normal"] = normals[0] if len(normals) == 1 else (normals if normals else None)
         return out
+
+    def class_state(self):
+        """attribute texts that some contract of the same class reads or writes (fields, attrs, assigns)"""
+        if getattr(self, "_class_state", None) is None:
+            q = self.fs.qualname.partition("#")[0]
+            prefix = q.rpartition(".")[0] + "." if "." in q.partition(":")[2] else q
+            cs = set()
+            for k, c in self.contracts.items():
+                if k.startswith(prefix):
+                    cs |= set(c.fields) | {a for a in c.attrs if a.startswith("self.")} | set(c.assigns or [])
+            self._class_state = cs
+        return self._class_state
+
+    def assigned_once(self, name):
+        n = 0
+        for nd in ast.walk(self.fs.node):
+            if isinstance(nd, ast.Name) and nd.id == name and isinstance(nd.ctx, (ast.Store, ast.Del)):
+                n += 1
+        return n == 1
 
     def after_stmt(self, s, st):
         """ghost code / refinement assertions / lemma instances attached 'after <pattern> #k'."""
@@ -1091,6 +1175,9 @@ class Engine:
         none = {"normal": st, "brk": [], "cont": [], "ret": [], "rse": []}
         self._pending_i64 = []
         key = self.fs.after_key.get(id(s))
+        gk = self.fs.generic_key.get(id(s))
+        if gk is not None and gk in self.c.summaries:       # "assign a[] #k": summary of an element store, any index
+            key = "after " + gk
         if key is not None and key[6:] in self.c.summaries:
             sm = self.c.summaries[key[6:]]
             self._seen_keys.add(key[6:])
@@ -1102,6 +1189,27 @@ class Engine:
                 rse.append(rs_)
                 st.guard = zand(st.guard, z3.Not(rc))
             prev = dict(st.vars)
+            if sm.subscripts:
+                self.cur_stmt = s
+                for nd in ast.walk(s):
+                    if isinstance(nd, ast.Subscript) and isinstance(nd.value, ast.Name) \
+                            and isinstance(st.vars.get(nd.value.id), SArr):
+                        arr = st.vars[nd.value.id]
+                        elts = self.index_list(nd.slice, st, False, {})
+                        if any(isinstance(x, ast.Slice) for x in elts):
+                            # a[i, :] : the fixed coordinates are checked; a store through it rewrites that part
+                            for d, x in enumerate(elts):
+                                if not isinstance(x, ast.Slice):
+                                    self.check_index(unparse(nd), arr, d, to_num(self.ev(x, st, False, {})), st, False)
+                            if isinstance(nd.ctx, ast.Store):
+                                st.vars[nd.value.id] = arr.with_term(fresh(nd.value.id, arr.term.sort()))
+                            continue
+                        if isinstance(nd.ctx, ast.Store) and len(elts) == arr.ndim:
+                            elem = R if arr.term.sort().range() == R or (arr.ndim == 2 and arr.term.sort().range().range() == R) else I
+                            self.store_sub(nd, fresh("abstracted", elem), st)
+                        else:
+                            for d, x in enumerate(elts):
+                                self.check_index(unparse(nd), arr, d, to_num(self.ev(x, st, False, {})), st, False)
             for n, t in sm.binds.items():
                 st.vars[n] = self.mk_param(f"{n}!{next(_fresh)}", t)
             for a in sm.assume:
@@ -1160,6 +1268,9 @@ class Engine:
         val = self.ev_code(value, st)
         self.flush_guarded(st, s)
         self.bind(tgt, val, st, s)
+        if isinstance(tgt, ast.Name) and isinstance(value, ast.Attribute) and isinstance(val, SArr) \
+                and unparse(value) in self.c.fields and self.assigned_once(tgt.id):
+            self.field_alias[unparse(value)] = tgt.id
         self.flush_guarded(st, s)
         return None
 
@@ -1187,7 +1298,9 @@ class Engine:
             return
         if isinstance(tgt, ast.Attribute):
             txt = unparse(tgt)
-            if self.c.assigns is not None and txt not in self.c.assigns:
+            if self.c.assigns is not None and txt not in self.c.assigns and txt in self.class_state():
+                # the frame speaks about the object state some contract of this class reads; an attribute no contract
+                # knows (e.g. a new cache field) cannot influence any contracted method and is not an alarm
                 self.emit("frame", f"{txt}@{self.stmt_label()}", z3.BoolVal(False), st.guard, self.c.props)
             st.vars[txt] = val
             return
@@ -1494,6 +1607,9 @@ class Engine:
             elif isinstance(seq, SView):
                 hi = st.vars[seq.base].shape[1 - seq.axis]
                 seq_name = None
+            elif isinstance(seq, SArr) and seq.ndim == 2 and isinstance(seqe, ast.Name):
+                hi = seq.shape[0]           # iterating a matrix yields its rows (views)
+                seq_name = seqe.id
             else:
                 raise OutOfSubset("iteration over this value")
         top = z3.If(lo <= hi, hi, lo)
@@ -1530,7 +1646,9 @@ class Engine:
         # --- one iteration
         body = hv.copy(zand(st.guard, k < hi))
         if evar:
-            if isinstance(seq, SArr):
+            if isinstance(seq, SArr) and seq.ndim == 2:
+                v = SView(seq_name, 0, k)
+            elif isinstance(seq, SArr):
                 # the sequence is the array as it was when the loop started (numpy iterates over a view;
                 # writes to it inside the loop would be visible) -> read the current array if it is a variable
                 cur = body.vars.get(seq_name) if seq_name else seq
@@ -1670,6 +1788,7 @@ class Engine:
         self._pending_i64 = []
         self._unfolded = set()
         self._seen_keys = set()
+        self.field_alias = {}
         self._qdefs = set()
         fn = self.fs.node
         args = [a.arg for a in fn.args.args]
@@ -1768,6 +1887,7 @@ class LemmaEngine(Engine):
         self._pending_i64 = []
         self._unfolded = set()
         self._seen_keys = set()
+        self.field_alias = {}
         self._qdefs = set()
         self.assumed = []
 
